@@ -66,7 +66,7 @@ def run(ctx):
     gen = ctx.cfg('Gen_CsvReader', constants={'MaxLen': 4 if q else 6, 'BomMaxLen': 3 if q else 4, 'EmitMin': 0})
     ctx.tlc('Gen_CsvReader', gen, capture='cases.ndjson', timeout=2400, heap='8g')
     sim = ctx.cfg('Gen_CsvReader', name='Gen_CsvReader_sim', constants={'MaxLen': 16 if q else 30, 'BomMaxLen': 14 if q else 28, 'EmitMin': 14 if q else 24})
-    ctx.tlc('Gen_CsvReader', sim, capture='cases.ndjson', simulate=150 if q else 3000, depth=18 if q else 32, workers=1, timeout=900)
+    ctx.tlc('Gen_CsvReader', sim, capture='cases.ndjson', simulate=100 if q else 800, depth=18 if q else 32, workers=1, timeout=900)
     rt = ctx.cfg('Gen_CsvRoundTrip', constants={'NFields': 2, 'FLen': 1 if q else 2})
     ctx.tlc('Gen_CsvRoundTrip', rt, capture='cases.ndjson', timeout=1500, heap='8g')
     os.environ['VERIF_WORKERS'] = str(ctx.cores)
@@ -87,8 +87,13 @@ def run(ctx):
     for r in rejects:
         info = r['info']
         cls = 'read-bom' if info.get('bom') else 'read'
+        start = [e for e in r['trace'] if e.get('ev') == 'start'][0]
+        cf = info['cfg']
+        # the rejected run as a Gen_CsvReader-format case (replayable with ./check C08 --replay)
+        case = dict(fam='read', name=cf['name'], sep=cf['sep'], comment=cf['comment'], header=cf['header'], bom=bool(info.get('bom')),
+                    input=start['input'], names=info['all']['names'], recs=info['all']['recs'], judge=True,
+                    sched=[e['n'] for e in r['trace'] if e.get('ev') == 'read'])
         ctx.add_failure(f"C08/{cls}/chunked/{info['what']}",
                         f"recorded run rejected by Trace_CsvReader at event {r['line']}: {info['what']} "
                         f"(configuration {info['name']}, {info['delivered']} bytes delivered)",
-                        case=dict(fam='trace', trace=r['trace'][:r['pos'] + 1]),
-                        expected=dict(record=info.get('expected'), names=info.get('names')), observed=r['trace'][r['pos']])
+                        case=case, expected=dict(record=info.get('expected'), names=info.get('names')), observed=r['trace'][r['pos']])
